@@ -60,7 +60,7 @@ def main(tier, replay):
     v = Verdict(PID)
     cov = {"checker_cmd": "coq/mk.sh theories/SendReq/Props.vo (coqc 8.16.1, full .vo build) + Print Assumptions per theorem",
            "trusted_base": vlib.TRUSTED_BASE + [
-               "modelled, not verified: wall-clock effects (replica.attemptedTime / maxReplicaAttemptTime, region cache TTL, decay of Store.EstimatedWaitTime), health-check and store re-resolve goroutines, slow-score statistics beyond markAlreadySlow / first-sample reset, forwarding (proxy) mode and TiFlash (forwarding runs are checked by the property oracles only)",
+               "modelled, not verified: wall-clock effects (replica.attemptedTime / maxReplicaAttemptTime, region cache TTL, decay of Store.EstimatedWaitTime), health-check and store re-resolve goroutines, slow-score statistics beyond markAlreadySlow / first-sample reset, TiFlash; forwarding is modelled for a freshly loaded region (proxyTiKVIdx = -1)",
                "sleep lengths and random tie-breaks are oracle inputs of the model (observed values are fed back; the model only assumes sleep >= base/2 resp. base)",
                "scripted client.Client + mocktikv cluster + failpoints fastBackoffBySkipSleep/skipStoreCheckUntilHealth; back-off observations through the exported prometheus.Observer variables of package metrics"]}
     gate = vlib.coq_gate(PID, AREAS, PROPS)
@@ -174,7 +174,7 @@ def main(tier, replay):
         v.violation({"kind": "proof", "theorem_or_file": gate["problems"], "what": "Coq obligations no longer check"}, has_input=False)
     LA = "4" if tier == "quick" else "5"
     cov.update(evaluations=nruns, distinct_nontrivial=stats.get("distinct", 0),
-               rule="per run one SendReqCtx call; classes: A = 11 base configurations (5 read types, stale read, 5 write) x ALL scripts up to length %s over 18 outcomes (DFS, extended only while the run asks for more); B = 15 single-option deviations (labels, liveness, slow stores, busy threshold, short timeout, budgets 1/120 ms, leader-only, learner, failed validation) x ALL scripts up to length %s over 23 outcomes; D = 20 directed long scripts (hint ping-pong, outcome repeated 40x, mixed lassos) x base x budgets x threshold; E = every command type sent through SendReq (36 tikvrpc.CmdType values: txn, raw, cop, mvcc debug; request/response built by reflection) x 2-3 read types x (all scripts up to length 1 over 23 outcomes + replica exhaustion / unreachable stores / spent budget / region invalidated between locate and send); C = random configurations x random scripts of length 4..60 (+ forwarding runs: oracles only). Provenance of a result is decided by object identity with the responses the scripted stores returned. distinct = distinct (configuration, model trace, result) triples among model-compared runs" % (LA, "2" if tier == "quick" else "3"),
+               rule="per run one SendReqCtx call; classes: A = 11 base configurations (5 read types, stale read, 5 write) x ALL scripts up to length %s over 18 outcomes (DFS, extended only while the run asks for more); B = 15 single-option deviations (labels, liveness, slow stores, busy threshold, short timeout, budgets 1/120 ms, leader-only, learner, failed validation) x ALL scripts up to length %s over 23 outcomes; D = 20 directed long scripts (hint ping-pong, outcome repeated 40x, mixed lassos) x base x budgets x threshold; E = every command type sent through SendReq (36 tikvrpc.CmdType values: txn, raw, cop, mvcc debug; request/response built by reflection) x 2-3 read types x (all scripts up to length 1 over 23 outcomes + replica exhaustion / unreachable stores / spent budget / region invalidated between locate and send); F = forwarding on (leader read/write x 6 liveness patterns x ALL scripts up to length 3/4: proxy selection, ForwardedHost, send failure through a proxy; model-compared); C = random configurations x random scripts of length 4..60 (incl. forwarding). Provenance of a result is decided by object identity with the responses the scripted stores returned. distinct = distinct (configuration, model trace, result) triples among model-compared runs" % (LA, "2" if tier == "quick" else "3"),
                samples=samples, traces_validated_against_impl=stats.get("cases", 0), input_distribution=counts,
                model_mismatches=len(mism), oracle_failures=len(ofails), bound_fail_classes=stats.get("bound_fail_classes", {}),
                rearmed_runs=stats.get("rearmed", 0), multi_attempt_runs=stats.get("multiattempt", 0))
